@@ -210,6 +210,7 @@ def run(ctx, rep):
     rep.floor('H2', 'swift: helper-token occurrences', n, 1)
     rep.section(python_typevars, ctx, rep, T)
     rep.section(python_translation_keys, ctx, rep, T)
+    rep.section(python_helper_text_names, ctx, rep, T)
     rep.section(scala_scan, ctx, rep, T)
     rep.section(flush, ctx, rep, T)
 
@@ -328,6 +329,72 @@ def python_translation_keys(ctx, rep, T):
             ok = x in tests
             rep.check(ok, 'H5', f"python:{f['name']}:translation-key#{n}", 'registered under the key that was looked up', f"python: {f['qual']} registers `{vt.show(c['args'][0])[:80]}` for JSON translation helpers, but the helper table was consulted for {'a different value' if tests else 'nothing'} on that path — at flush time json_translation_for_type(<registered text>) finds no entry, so BeforeValidator/PlainSerializer name functions the module never defines", {'file': f['file'], 'line': c.get('line')})
     rep.floor('H5', 'python: translation registrations', n, 2)
+
+
+def python_helper_text_names(ctx, rep, T):
+    """H6: the (de)serialiser helper functions are Python text kept in a table keyed by the *Python* type (`"bytes"`,
+    `"datetime"`); they are written whenever a field's rendered type is such a key — whichever Rust type or type mapping
+    produced it.  A module-level name used inside a helper text (one that typeshare imports elsewhere in this backend, e.g.
+    `datetime`) must therefore be imported under the same key: an `add_import(.., name)` guarded by the key's membership in the
+    translation set (or by the rendered type being the key), not by the Rust type name that usually maps to it."""
+    import re as _re
+    fns = inline.file_views(ctx, 'language/python.rs')
+    imported = {}
+    for f in fns:
+        for c in f['calls']:
+            if c.get('f') == 'add_import' and len(c.get('args', [])) == 2:
+                lits = [next((x.get('v') for x in vt.walk(a) if x.get('k') == 'lit' and x.get('t') == 'str'), None) for a in c['args']]
+                if lits[1]:
+                    imported.setdefault(lits[1], []).append((f, c, lits[0]))
+    tab = [g for g in ctx.astq['functions'] if g['file'].endswith('language/python.rs') and g['name'].split('::')[-1] == 'json_translation_for_type']
+    if len(tab) != 1:
+        raise core.Incomplete('H6: the helper-text table (json_translation_for_type) not found')
+    rows = []
+
+    def every(n, d=0):
+        if d > 60:
+            return
+        if isinstance(n, list):
+            for y in n:
+                yield from every(y, d + 1)
+        elif isinstance(n, dict):
+            yield n
+            for k_, y in n.items():
+                if k_ not in ('guard',) and isinstance(y, (dict, list)):
+                    yield from every(y, d + 1)
+    for n in every([l.get('v') for l in tab[0].get('lets', [])] + [tab[0].get('tail')]):
+        if n.get('k') in ('tuple', 'array', 'vecof') or 'items' in n:
+            its = n.get('items') or []
+            if len(its) == 2 and isinstance(its[0], dict) and vt.strip(its[0]).get('k') == 'lit' and isinstance(vt.strip(its[1]), dict) and vt.strip(its[1]).get('k') == 'struct':
+                texts = [x.get('v') for x in every(its[1]) if x.get('k') == 'lit' and x.get('t') == 'str' and isinstance(x.get('v'), str)]
+                rows.append((vt.strip(its[0]).get('v'), texts))
+    rep.floor('H6', 'python: helper-text table rows', len(rows), 2)
+    n = 0
+    for key, texts in rows:
+        used = sorted({t for txt in texts for t in _re.findall(r'[A-Za-z_][A-Za-z0-9_]*', txt)} & set(imported))
+        for name in used:
+            n += 1
+            sites = imported[name]
+
+            def keyed(f, c):
+                for fr in c.get('guard', []):
+                    if fr.get('k') != 'if' or fr.get('neg'):
+                        continue
+                    cond = fr.get('c')
+                    lit_ok = any(x.get('k') == 'lit' and x.get('v') == key for x in every(cond))
+                    about_py = 'types_for_custom_json_translation' in vt.show(cond) or any(x.get('k') == 'call' and str(x.get('f', '')).split('::')[-1] in FORMATTERS_PY for x in every(cond))
+                    if lit_ok and about_py:
+                        return True
+                return False
+            ok = any(keyed(f, c) for f, c, _m in sites)
+            others = sorted({(' && '.join((('!' if fr.get('neg') else '') + vt.show(fr.get('c'))[:50]) for fr in c.get('guard', []) if fr.get('k') in ('if',)) or ('arm ' + '|'.join(str(v2) for fr in c.get('guard', []) if fr.get('k') == 'arm' for v2 in fr.get('variants', []))[:60]) or 'unconditionally in ' + f['name']) for f, c, _m in sites})
+            rep.check(ok, 'H6', f'python:helper-text:{key}:{name}', f'`{name}` imported under the key "{key}"',
+                      f"python: the helper functions written for the Python type \"{key}\" use `{name}`, but `{name}` is only imported {others[:3]} — never keyed on \"{key}\" being in the translation set: "
+                      f"a type mapping that renders another Rust type as `{key}` gets the helpers without the import (NameError when the module is loaded)", {'file': tab[0]['file'], 'line': tab[0]['line']})
+    rep.analysed['H6:imported names used inside helper texts'] = n
+
+
+FORMATTERS_PY = ('format_type', 'format_simple_type', 'format_generic_type', 'format_special_type')
 
 
 def flush(ctx, rep, T):
